@@ -38,7 +38,7 @@ ADV = ['bad_magic', 'len_over', 'len_zero', 'garbage', 'pre_hello_getblocks', 'p
        'flip_known_block', 'flip_frame', 'splice', 'dup_flood', 'hello_twice', 'peers_weird', 'trailing', 'truncate_then_valid',
        'bad_tx_payload', 'bad_block_payload', 'huge_vlq', 'inv_known', 'getblocks_unknown', 'close_mid_frame', 'instate_invalid_relay',
        'instate_invalid_unrequested_response', 'instate_invalid_unrequested_response', 'announced_then_served_wrong_height',
-       'announced_then_served_wrong_height']
+       'announced_then_served_wrong_height', 'reset_in_accept_queue']
 STRUCT_BLOCKS = ['no_txs', 'dup_tx', 'wrong_merkle', 'merkle_dup_last', 'reward_two_inputs', 'reward_real_ref', 'two_rewards',
                  'reward_not_first', 'reward_height_differs', 'out_zero', 'null_ref', 'placeholder_sig', 'dup_ref_in_tx',
                  'dup_ref_in_block', 'outs_sum_over_max']
@@ -91,6 +91,7 @@ def execute(script):
         if sim.dead or node.loop_error:
             return res
         adv = Bot(w.k, 'adv', '10.0.9.9', {'greet': False, 'my_port': 0})
+        adv2 = {}
         expected_ids = set(sim.stored)
         expected_pool = []
         honest_pending = []
@@ -275,6 +276,23 @@ def execute(script):
                 blk = forged_block(INSTATE[a % len(INSTATE)], op)
                 if blk is None:
                     return
+                if kind == 'instate_invalid_unrequested_response' and b % 2:
+                    # ... while ANOTHER peer has announced that very block and has been asked for it (and is slow to answer):
+                    # what the node requested from one peer says nothing about what a different peer pushes
+                    if 'bot' not in adv2:
+                        adv2['bot'] = Bot(w.k, 'adv2', '10.0.9.8', {'greet': False, 'my_port': 0, 'hold_getdata': True})
+                    live2 = [c_ for c_ in adv2['bot'].conns if not c_.closed and c_.hello_in]
+                    if not live2:
+                        c2_ = adv2['bot'].connect(('10.0.0.1', 2412))
+                        w.settle(600)
+                        adv2['bot'].hello(c2_)
+                        w.settle(1500)
+                        live2 = [c_ for c_ in adv2['bot'].conns if not c_.closed and c_.hello_in]
+                    if live2:
+                        live2[-1].offer_block(blk)
+                        w.settle(2000)
+                        if live2[-1].held:
+                            res.bump('probe:block_requested_from_another_peer_then_pushed_by_this_one')
                 send(frame(hdr(resp=(0 if kind == 'instate_invalid_relay' else 1 + b)) + M.DataMessage(M.DATA_BLOCK, blk).serialize()))
             elif kind == 'announced_then_served_wrong_height':
                 # in protocol order, but structurally inconsistent: the peer announces a block, the node asks for it, and what is
@@ -293,6 +311,16 @@ def execute(script):
                              if isinstance(m_, M.GetDataMessage) and m_.hash == bid_)
                 if served:
                     res.bump('probe:node_requested_the_announced_forgery')
+            elif kind == 'reset_in_accept_queue':
+                # a connection is aborted by its initiator before the node gets round to accepting it
+                s_ = w.k.net.socket(adv)
+                s_.reset_on_establish = True
+                s_.connect_ex(('10.0.0.1', 2412))
+                w.settle(1500)
+                try:
+                    s_.close()
+                except Exception:
+                    pass
             elif kind == 'struct_tx':
                 tx = struct_tx(STRUCT_TX[a % len(STRUCT_TX)], b)
                 if tx is None:
